@@ -11,6 +11,7 @@ mod c05;
 mod c06;
 mod c07;
 mod c08;
+mod c09;
 mod c10;
 mod c16;
 mod c19;
@@ -53,6 +54,7 @@ fn main() {
                 "C06" => c06::run(seed, thorough, &mut out),
                 "C07" => c07::run(seed, thorough, &mut out),
                 "C08" => c08::run(seed, thorough, &mut out),
+                "C09" => c09::run(seed, thorough, &mut out),
                 "C10" => c10::run(seed, thorough, &mut out),
                 "C16" => c16::run(seed, thorough, 16, &mut out),
                 "C19" => c19::run(seed, thorough, &mut out),
@@ -85,6 +87,7 @@ fn main() {
                     "C06" => c06::replay(line, &mut out),
                     "C07" => c07::replay(line, &mut out),
                     "C08" => c08::replay(line, &mut out),
+                    "C09" => c09::replay(line, &mut out),
                     "C10" => c10::replay(line, &mut out),
                     "C16" => c16::replay(line, 16, &mut out),
                     "C19" => c19::replay(line, &mut out),
